@@ -6,6 +6,9 @@ from sim import gen_beh, norm
 from sim.core import Chooser, EventLog, Violation, stable_hash
 
 
+DEEP = ["{ RdV = " + "~" * n + "5; }" for n in (300, 600, 700)] + ["{ RdV = 1" + " + 1" * 200 + "; }"]
+
+
 class EngineC14(HistEngine):
     prop = "C14"
     tiers = {"quick": dict(budget_s=70, max_runs=10**9, workers=16),
@@ -32,7 +35,8 @@ class EngineC14(HistEngine):
             k = ch.weighted([("insn", 10), ("stmt", w_stmt), ("fresh", w_fresh), ("fresh2", w_fresh // 2), ("xform2", 2 if len(insts) > 1 else 0),
                              ("new", w_new if len(insts) < 3 else 0),
                              ("add_sub", 1), ("parse_err", fail_w // 2), ("load", 1), ("loaded_insn", 2), ("twins", 1),
-                             ("add_macro", 1), ("shortcode", 1 if ch.chance(1, 6, "sc?") else 0)], "opkind")
+                             ("add_macro", 1), ("shortcode", 1 if ch.chance(1, 6, "sc?") else 0),
+                             ("deep", 1 if fail_w and ch.chance(1, 3, "deep?") else 0)], "opkind")
             if k == "new":
                 fmt = ch.choice(FMTS, "newfmt")
                 ops.append({"op": "new_compiler", "fmt": fmt})
@@ -77,6 +81,15 @@ class EngineC14(HistEngine):
                     ops.append({"op": "compile_parsed", "inst": inst, "name": nm, "parts": self.beh[n1]})
                     ops.append({"op": "shortcode", "inst": i2, "behaviors": {nm: self.beh[n2]}})
                     ops.append({"op": "compile_parsed", "inst": i2, "name": nm, "parts": self.beh[n2]})
+                continue
+            if k == "deep":
+                # legal but very deeply nested statements, on both sides of what the interpreter's recursion limit allows:
+                # process-wide limits must be the same before and after failed compilations
+                if self.failing_ok and ch.chance(2, 3, "deep-after-failure"):
+                    t = ch.choice(self.failing_ok, "deepfail")
+                    ops.append({"op": "insn", "inst": inst, "name": "bad_" + stable_hash(t)[:8], "parts": [t],
+                                "via": ch.choice(["transform_insn", "compile_insn"], "deepvia")})
+                ops.append({"op": "stmt", "inst": ch.draw(len(insts), "deepinst"), "code": ch.choice(DEEP, "deeptext")})
                 continue
             if k == "twins":
                 a, b = ch.choice(STMT_TWINS, "twin")
@@ -153,9 +166,11 @@ class EngineC14(HistEngine):
         999/1000) before behaviours with several temporaries are compiled - wherever generated names are sorted,
         compared as strings or cut to a width, these are the values that matter."""
         fmt0 = ch.choice(FMTS, "fmt0")
-        target = ch.choice([9, 99, 999], "boundary") - ch.draw(3, "below")
+        target = ch.weighted([(9, 3), (99, 3), (999, 3), (256, 1), (1024, 1), (2048, 1), (4096, 1), (8192 if self.tier == "thorough" else 512, 1)],
+                             "boundary") - ch.draw(3, "below")
         ops = [{"op": "insn", "inst": 0, "name": "warm", "parts": [WARMUP_BIG], "via": "transform_insn"}] * (target // 8)
         ops += [{"op": "insn", "inst": 0, "name": "warm", "parts": [WARMUP_ONE], "via": "transform_insn"}] * (target % 8)
+        # (the counter also crosses powers of two: limits, table sizes, widths of generated names)
         for _ in range(ch.randint(2, 6, "nmulti")):
             t = ch.choice(MULTI_HYBRID, "multi-hybrid")
             kind = ch.choice(["stmt", "insn", "fresh"], "bentry")
